@@ -406,7 +406,7 @@ func c20Execute(c *mc.Ctx, imgs [][]byte, plan [][]int, bodies []c20Body) ([][]s
 }
 
 func runC20(r *ev.Run) {
-	r.Rule = "interleavings: 2 goroutines (3 thorough), each with its own handle (same image / different images with different page sizes / twin images with identical definitions, one in the legacy file format where DESC is ignored), each running 1-2 operations out of {Select, IndexedSelect, IndexedSelectEq, SelectRowid+Columns, PKSelect+Schema, ScanRange, the database/sql driver's SELECT * on a table whose columns are in another order in the twin file}; scheduling points before every pager call (lock, unlock, page read) and in every row callback; every interleaving with <=2 preemptions (3 thorough); oracle: every operation returns exactly its solo result (a participant that waits for another one outside the hooked operations leaves the enabled set until it is back; all waiting = deadlock = violation). pool histories: every sequence of <=5 (6 thorough) database/sql operations on one pool (two result sets open at once, read alternately, failing statements and Exec in between): every result set returns what its query returns alone. handle life cycles on real files: participants {open, select, close}, {open, select, close, close again, select after close}, {open, close, open, select, close} on the same or on different files, steps = whole API calls, every interleaving of two (three thorough) participants: every step returns what it returns alone; and the file behind a path replaced by rename while handles are open (every interleaving of two open/select/close participants with the replacement): every select answers from the file its handle opened. race pass (a dynamic detector, not exhaustive): the same bodies on 8 goroutines with their own handles on 2 real files plus a database/sql pool used from 4 goroutines, free-running under -race; any report is a violation. non-trivial = executions with at least one preemption"
+	r.Rule = "interleavings: 2 goroutines (3 thorough), each with its own handle (same image / different images with different page sizes / twin images with identical definitions, one in the legacy file format where DESC is ignored), each running 1-2 operations out of {Select, IndexedSelect, IndexedSelectEq, SelectRowid+Columns, PKSelect+Schema, ScanRange, the database/sql driver's SELECT * on a table whose columns are in another order in the twin file}; scheduling points before every pager call (lock, unlock, page read) and in every row callback; every interleaving with <=2 preemptions (3 thorough); oracle: every operation returns exactly its solo result (a participant that waits for another one outside the hooked operations leaves the enabled set until it is back; all waiting = deadlock = violation). pool histories: every sequence of <=5 (6 thorough) database/sql operations on one pool (two result sets open at once, read alternately, failing statements and Exec in between): every result set returns what its query returns alone. handle life cycles on real files: participants {open, select, close}, {open, select, close, close again, select after close}, {open, close, open, select, close} on the same or on different files, steps = whole API calls, every interleaving of two (three thorough) participants: every step returns what it returns alone; and the file behind a path replaced by rename while handles are open (every interleaving of two open/select/close participants with the replacement): every select answers from the file its handle opened. failed-open histories: one failing step (open of a missing file / a non-database / a WAL file / a directory, through the driver or the native API; failing statements on a good file) repeated 300 (3000 thorough) times, then a healthy file through the driver and the native API returns what it returns on its own. race pass (a dynamic detector, not exhaustive): the same bodies on 8 goroutines with their own handles on 2 real files plus a database/sql pool used from 4 goroutines, free-running under -race; any report is a violation. non-trivial = executions with at least one preemption"
 	poolHistories(r, "C20")
 	bodies := c20Bodies()
 	imgA, imgB := c20Images()
@@ -537,6 +537,7 @@ func runC20(r *ev.Run) {
 		}
 	})
 	c20Lifecycle(r, imgA, imgB)
+	c20FailedOpens(r, imgA)
 	c20Race(r, imgA, imgB)
 }
 
